@@ -130,6 +130,37 @@ func symxC07() {
 	if ops >= 2 {
 		rt.Cover(len(replay) >= 2, "C07.two_topics_replayed")
 	}
+	if rt.Param("resubscribe", 0) == 1 && f2 < 0 && target == b {
+		// the retained value of one topic changes, then the same session subscribes again with
+		// the very same filter: a later subscription like any other
+		t := int(rt.Int("topic_again", 0, 2))
+		np := []byte{rt.Byte("payload_again"), 'R'}
+		symxTick()
+		rt.Assert(p.proc.Process(b.ctx, pubS, pubC, &packet.Publish{Header: &packet.Header{Retain: true}, Topic: []byte(symxRetTopics[t]), Payload: np}) == nil, "C07.publish_accepted")
+		rt.Quiesce()
+		ref[t] = np
+		before := len(symxPublishes(newC.written()))
+		symxTick()
+		rt.Assert(tp.proc.Process(target.ctx, newS, newC, &packet.Subscribe{Header: &packet.Header{}, MessageId: 8, Topic: subTopics, Qos: subQos}) == nil, "C07.subscribe_ok")
+		rt.Quiesce()
+		again := symxPublishes(newC.written())[before:]
+		var seen2 [3]int
+		for _, rp := range again {
+			for k := range symxRetTopics {
+				if string(rp.Topic) == symxRetTopics[k] && rp.Header.Retain && bytes.Equal(rp.Payload, ref[k]) {
+					seen2[k]++
+				}
+			}
+		}
+		for k := range symxRetTopics {
+			want := 0
+			if len(ref[k]) > 0 && symxFilterMatches(symxRetFilters[f], symxRetTopics[k]) {
+				want = 1
+			}
+			// the live copy of the new publish (not flagged) may be there as well; flagged replays are counted
+			rt.Assert(seen2[k] == want, "C07.resubscription_replays_the_current_retained_messages")
+		}
+	}
 	rt.Cover(len(ref[0]) == 0 && len(ref[1]) > 0, "C07.child_retained_parent_not")
 	b.cancel()
 	if b2 != nil {
